@@ -643,6 +643,19 @@ func alignGroups(a, b []*Term) ([]byteGroup, []byteGroup) {
 }
 
 func (p *Path) bytesEq(x, y Value) *Term {
+	// marshalled values: protobuf encoding is assumed injective per message type, and a store
+	// key always holds one kind of value; blobs are equal iff the values they encode are
+	bx, isBx := x.(VBlob)
+	by, isBy := y.(VBlob)
+	if isBx && isBy {
+		if !types.Identical(bx.Ty, by.Ty) {
+			return tFalse
+		}
+		return p.deepEq(bx.Val, by.Val)
+	}
+	if isBx || isBy {
+		return tFalse
+	}
 	a, ok1 := byteTerms(x)
 	b, ok2 := byteTerms(y)
 	if !ok1 || !ok2 {
